@@ -235,6 +235,18 @@ impl SyncRequester {
                 let mut result = Vec::new();
                 let mut start: usize = 0;
                 for meta in commands {
+                    // A command's max cut is its parent's plus one. A peer
+                    // claiming a parent at the maximum max cut sent a
+                    // malformed response; it must not surface later as a
+                    // bug in `CommandExt::max_cut`.
+                    if meta
+                        .parent
+                        .into_iter()
+                        .any(|parent| parent.max_cut.checked_add(1).is_none())
+                    {
+                        return Err(SyncError::MalformedResponse);
+                    }
+
                     let policy_len = meta.policy_length as usize;
 
                     let policy = match policy_len == 0 {
